@@ -263,7 +263,7 @@ func (p *PO) build() {
 	after("listen.ok", anyEv, "accept")
 	after("chan.close", same0, "chan.recv")
 	for i, e := range p.ev {
-		if e.Kind == "accept" {
+		if e.Kind == "accept" && !(len(e.Args) > 1 && e.Args[1] == "late") {
 			for j, c := range p.ev {
 				if c.Kind == "listener.close" {
 					add("(assert " + both(i, j, lt(i, j)) + ")")
